@@ -552,6 +552,10 @@ func (m Migrator) MigrateColumn(value interface{}, field *schema.Field, columnTy
 				alterColumn = v1 != v2
 			default:
 				alterColumn = dv != field.DefaultValue
+				if alterColumn && field.DefaultValueInterface != nil {
+					// the column was created from the parsed default (1 for `default:1.0`), see FullDataTypeOf
+					alterColumn = dv != fmt.Sprint(field.DefaultValueInterface)
+				}
 			}
 		}
 	}
